@@ -230,8 +230,23 @@ def _r5(prog, rep):
              "wrap_single_line forwards %s to the slow path" % [[describe(x, b2)[:60] for x in f[1]] for f in fw])
 
 
+def _witness(prog, rep, names, rule, what):
+    from ..witness import run_witnesses
+    res = run_witnesses()
+    for n in names:
+        if res.get(n) is True:
+            rep.ok(rule, "witness::" + n, "%s (%s)" % (what, n), "doc test %s: compile result as expected" % n)
+        else:
+            rep.violation(rule, "witness::" + n, "witness", "witness/lib.rs", "compile-time witness %s %s: %s no longer holds at the type level"
+                          % (n, "did not behave as expected" if n in res else "was not run", what))
+
+
 def run(prog, rep):
+    from . import optconv
+    optconv.check(prog, rep, 'C01')
     lemmas.load_all()
+    if prog.config == "default":
+        _witness(prog, rep, ["W1Ok", "W1Ok2", "W1Fail"], "C01.R8", "lines returned by wrap borrow from the text and not from the options")
     guarded(rep, "C01.R1", "crate::wrap::wrap_single_line_slow_path", lambda: _r123(prog, rep))
     guarded(rep, "C01.R4", "crate::wrap::wrap_single_line", lambda: _r4(prog, rep))
     guarded(rep, "C01.R5", "crate::wrap::wrap", lambda: _r5(prog, rep))
